@@ -50,7 +50,17 @@ Skip ==
        l' = IF nxt = {} THEN Len(Trace) + 1 ELSE CHOOSE i \in nxt : \A j \in nxt : i <= j
   /\ s' = Init0 /\ last' = "skip"
 
-TNext == Match \/ Skip
+(* debugging aid: at position CORE_DEBUG print what the specification would have parked after the recorded step *)
+DebugAt == IF "CORE_DEBUG" \in DOMAIN IOEnv THEN IOEnv.CORE_DEBUG ELSE "0"
+Debug ==
+  /\ ToString(l) = DebugAt /\ l <= Len(Trace)
+  /\ LET e == Trace[l] IN
+       /\ PrintT(<<"DEBUG", l, e.g, "recorded", e.parked, "model parked now", {Label(g) : g \in Parked(s)}>>)
+       /\ \A g \in {h \in Parked(s) : Label(h) = e.g} :
+             \A t \in Quiesce(Release(s, g)) : PrintT(<<"DEBUG-SUCC", {<<Label(h), h[3]>> : h \in Parked(t)}>>)
+  /\ UNCHANGED tvars
+
+TNext == Match \/ Skip \/ Debug
 TSpec == TInit /\ [][TNext]_tvars
 
 Report == /\ JsonSerialize(IOEnv.CORE_OUT, [accepted |-> [i \in 1..N |-> TLCGet(i)], n |-> N, matched |-> TLCGet(N + 1)])
